@@ -167,7 +167,7 @@ def h_drawDeclarative : Handler := fun j => do
   let unit ← getRatK j "unit"
   let π ← getPi j
   pure (jsonExcept (fun (l : List Placement) => Json.arr (l.map fun p => Json.mkObj [
-      ("cls", p.cls), ("kwargs", jsonValMap p.kwargs), ("method", p.method), ("length", jsonRat p.length),
+      ("cls", p.cls), ("kwargs", jsonValMap p.kwargs), ("method", p.method), ("length", jsonRat p.length), ("plain", Json.bool p.plain),
       ("at_end_of", match p.after with | some i => Json.num (i : Int) | none => Json.null)]).toArray)
     (declarative π unit elems))
 
